@@ -3,11 +3,31 @@ import re as _re, struct as _struct
 from fractions import Fraction
 from props.common import *
 LEVEL = 'proof'
-CLAIM = ''
-BOUNDS = ''
-OUTSIDE = ''
-ASSUMPTIONS = []
-
+CLAIM = ("rgb2YCoCgR/YCoCgR2rgb (int8..int64, uint8..uint64): executed bit-precisely from their clang IR with fully symbolic r,g,b; the solver shows YCoCgR2rgb(rgb2YCoCgR(c)) == c and rgb2YCoCgR(YCoCgR2rgb(y)) == y "
+         "(composed wrapper and the two separately compiled halves chained), that the forward/inverse transforms are the Malvar-Sullivan lifting steps over the integers (Co = R-B, t = B+floor(Co/2), Cg = G-t, Y = t+floor(Cg/2) = "
+         "floor((R+2G+B)/4)) and that N-bit colours need N luma and N+1 chroma bits. Rounding-erased (real arithmetic, float and double instantiations): rgb2YCoCg/YCoCg2rgb and the float rgb2YCoCgR/YCoCgR2rgb are the documented "
+         "linear maps and mutually inverse in both orders; saturation(s) is s*I + (1-s)*(w w w)^T with the Rec.709 weights (all 16 entries), saturation(s,c) = lerp(luma(c), c, s) with alpha untouched, identity at s = 1, grey at s = 0, "
+         "grey levels preserved for every s; luminosity is the dot product with the weights documented in gtx/color_space.hpp (read from the header); hsvColor: value = max, saturation = (max-min)/max in [0,1], hue in [0,360) and equal "
+         "to the textbook hue; rgbColor equals the textbook sector formula, stays in the cube, max = v, min = v(1-s); rgbColor(hsvColor(c)) == c on the cube and hsvColor(rgbColor(hsv)) == hsv (value and saturation exactly, hue on the "
+         "circle), floor(h/60) carried exactly per sector. Bit-precise: 0 <= hue < 360 and saturation in [0,1] for all float colours of the cube, grey levels survive rgbColor(hsvColor()) bit for bit. sRGB (convertLinearToSRGB / "
+         "convertSRGBToLinear, standard and explicit-Gamma overloads, vec1-4, float/double, highp/mediump/lowp; pow an uninterpreted function constrained by true facts): the documented piecewise curve (constants, threshold side, pow base "
+         "and exponent), 0 -> 0, 1 -> 1, [0,1] -> [0,1], monotone on each piece and across the junction, each piece inverted by the matching piece of the other function, alpha untouched (also bit for bit in IEEE mode); the sqrt-based "
+         "lowp specialisation: fixed points, range, monotonicity.")
+BOUNDS = ("integers: all 2^(3W) triples for unsigned types and int8/int16 (arithmetic modulo 2^W), int32/int64: all non-negative triples (colour depth W-1) or all triples in [-2^(W-2), 2^(W-2)) (no signed overflow); reals: all real "
+          "arguments (linear maps, saturation), colours of the cube [0,1]^3, hue in [0,360), s,v in (epsilon,1] for hsvColor(rgbColor()); tolerances 2^-21 (float) / 2^-50 (double) absorb the rounded constant 1/60 and the "
+          "epsilon comparisons of gtx/color_space.inl; hue round trip: circular distance * s * v <= 2^-15 (s v + 1) (float); sRGB: components in [0,1], Gamma in [1,3]; linear pieces invert to relative 2^-22 / 2^-51, power pieces to "
+          "relative 2.3e-7 (float) / 1.3e-16 (double) for the explicit-Gamma pair resp. 9.3e-5 for the standard pair (whose exponents multiply to 0.41666 * 2.4 = 0.999984); bit-precise HSV obligations: all float bit patterns of the cube (double: thorough tier, optional)")
+OUTSIDE = ("numerical accuracy of pow/sqrt and of every float operation in the real-mode obligations (rounding-erased semantics); the value of the sRGB curves exactly at the junction point (the standard selects the linear piece at "
+           "0.0031308, glm the power piece) and the size of the junction discontinuity; inverse of a power piece that lands on the other function's linear piece (sRGB values in (0.0404499, 0.04045], 6e-8 wide); Gamma outside [1,3]; accuracy of the lowp "
+           "sqrt approximation against the exact curve; colours outside [0,1]; hue of grey colours (0/0 = NaN by design of hsvColor); signed overflow of int32/int64 YCoCg-R for negative/huge components (C20); hsvColor(rgbColor()) "
+           "for saturation or value <= epsilon (treated as grey/black by the code)")
+ASSUMPTIONS = ['real mode erases rounding: every fadd/fsub/fmul/fdiv is exact, sqrt is the non-negative real root, floor is the integer part (engine/models.py:rcall); decimal literals denote their exact float/double values',
+               'pow(b,e) is an uninterpreted real function constrained only by: b>=0,e>0 -> pow>=0; b>0 -> pow>0; pow(0,e>0)=0; pow(1,e)=1; pow(b,1)=b; 0<=b<=1,e>0 -> pow<=1; b>=1,e>0 -> pow>=1; strictly increasing in b for e>0; '
+               'b^3 <= pow(b,e) <= b for 0<b<=1, 1<=e<=3 (reversed for b>=1); (pow(x,e1)*K)^e2 = x^(e1 e2) * K^e2; x^1 = x; x <= x^E <= x*b0^(E0-1) for b0<=x<=1, E0<=E<=1; and anchor enclosures of pow at the junction '
+               '(0.0031308^e0 resp. 0.0904739^e0, mpmath interval arithmetic, 60 digits) propagated by monotonicity in base and exponent',
+               'the luminance weights of saturation() are the ITU-R BT.709 coefficients (0.2126, 0.7152, 0.0722) (the header documents none); those of luminosity() are read from the comment in gtx/color_space.hpp',
+               'YCoCg-R lifting steps as published by Malvar & Sullivan (the reference cited in gtx/color_space_YCoCg.hpp); the sRGB curve as in IEC 61966-2-1 / the W3C page cited in gtc/color_space.hpp',
+               'cvc5 decides the bit-precise hue bounds (z3 needs 4-6x longer); urem-free integer kernels with floor identities go to cvc5 --solve-bv-as-int=sum']
 FT = {'f32': ('float', 32), 'f64': ('double', 64)}
 ITY = ['i8', 'u8', 'i16', 'u16', 'i32', 'u32', 'i64', 'u64']
 U = Unit('c19', includes=['glm/glm.hpp', 'glm/gtc/color_space.hpp', 'glm/gtx/color_space.hpp', 'glm/gtx/color_space_YCoCg.hpp'])
@@ -30,6 +50,28 @@ for t, (c, w) in FT.items():
     U.add('sat3_' + t, [(c, 1), (c, 3)], [(c, 3)], 'stv(o, glm::saturation(a[0], ldv<3,%s>(b)));' % c)
     U.add('sat4_' + t, [(c, 1), (c, 4)], [(c, 4)], 'stv(o, glm::saturation(a[0], ldv<4,%s>(b)));' % c)
     U.add('lum_' + t, [(c, 3)], [(c, 1)], 'o[0] = glm::luminosity(%s);' % V)
+    U.add('hsv_' + t, [(c, 3)], [(c, 3)], 'stv(o, glm::hsvColor(%s));' % V)
+    U.add('rgb_' + t, [(c, 3)], [(c, 3)], 'stv(o, glm::rgbColor(%s));' % V)
+    U.add('hsv_rt_' + t, [(c, 3)], [(c, 3), (c, 3)], 'glm::vec<3,%s> h = glm::hsvColor(%s); stv(o2, h); stv(o, glm::rgbColor(h));' % (c, V))
+    U.add('rgb_rt_' + t, [(c, 3)], [(c, 3), (c, 3)], 'glm::vec<3,%s> h = glm::rgbColor(%s); stv(o2, h); stv(o, glm::hsvColor(h));' % (c, V))
+    for L in (1, 2, 3, 4):
+        VL = 'ldv<%d,%s>(a)' % (L, c)
+        U.add('l2s_v%d_%s' % (L, t), [(c, L)], [(c, L)], 'stv(o, glm::convertLinearToSRGB(%s));' % VL)
+        U.add('l2sg_v%d_%s' % (L, t), [(c, L), (c, 1)], [(c, L)], 'stv(o, glm::convertLinearToSRGB(%s, b[0]));' % VL)
+        U.add('s2l_v%d_%s' % (L, t), [(c, L)], [(c, L)], 'stv(o, glm::convertSRGBToLinear(%s));' % VL)
+        U.add('s2lg_v%d_%s' % (L, t), [(c, L), (c, 1)], [(c, L)], 'stv(o, glm::convertSRGBToLinear(%s, b[0]));' % VL)
+        if L >= 3:
+            VT = 'glm::vec<%d,%s>' % (L, c)
+            U.add('sl_v%d_%s' % (L, t), [(c, L)], [(c, L), (c, L)], '%s m = glm::convertLinearToSRGB(%s); stv(o2, m); stv(o, glm::convertSRGBToLinear(m));' % (VT, VL))
+            U.add('slg_v%d_%s' % (L, t), [(c, L), (c, 1)], [(c, L), (c, L)], '%s m = glm::convertLinearToSRGB(%s, b[0]); stv(o2, m); stv(o, glm::convertSRGBToLinear(m, b[0]));' % (VT, VL))
+            U.add('ls_v%d_%s' % (L, t), [(c, L)], [(c, L), (c, L)], '%s m = glm::convertSRGBToLinear(%s); stv(o2, m); stv(o, glm::convertLinearToSRGB(m));' % (VT, VL))
+            U.add('lsg_v%d_%s' % (L, t), [(c, L), (c, 1)], [(c, L), (c, L)], '%s m = glm::convertSRGBToLinear(%s, b[0]); stv(o2, m); stv(o, glm::convertLinearToSRGB(m, b[0]));' % (VT, VL))
+    for q in ('mediump', 'lowp'):
+        VQ = 'ldv<3,%s,glm::%s>(a)' % (c, q)
+        U.add('l2s_%s_v3_%s' % (q, t), [(c, 3)], [(c, 3)], 'stv(o, glm::convertLinearToSRGB(%s));' % VQ)
+        U.add('l2sg_%s_v3_%s' % (q, t), [(c, 3), (c, 1)], [(c, 3)], 'stv(o, glm::convertLinearToSRGB(%s, b[0]));' % VQ)
+        U.add('s2l_%s_v3_%s' % (q, t), [(c, 3)], [(c, 3)], 'stv(o, glm::convertSRGBToLinear(%s));' % VQ)
+        U.add('s2lg_%s_v3_%s' % (q, t), [(c, 3), (c, 1)], [(c, 3)], 'stv(o, glm::convertSRGBToLinear(%s, b[0]));' % VQ)
 def units(tier): return [U]
 
 # ------------------------------------------------------------------ specification helpers
@@ -190,8 +232,397 @@ def job_saturation(t):
                    known=['KF-C19-luminosity-weights-sum'], bounds='all grey levels y: |luminosity(y,y,y) - y| <= %s*|y|' % tol)
     return run
 
+# ------------------------------------------------------------------ HSV <-> RGB
+def rmax3(c): return z3.If(c[0] >= c[1], z3.If(c[0] >= c[2], c[0], c[2]), z3.If(c[1] >= c[2], c[1], c[2]))
+def rmin3(c): return z3.If(c[0] <= c[1], z3.If(c[0] <= c[2], c[0], c[2]), z3.If(c[1] <= c[2], c[1], c[2]))
+def hsv2rgb_textbook(h, s, v):
+    """HSV -> RGB as in Foley/van Dam: i = floor(h/60), f = h/60 - i, p = v(1-s), q = v(1-sf), t = v(1-s(1-f)); (v,t,p) (q,v,p) (p,v,t) (p,q,v) (t,p,v) (v,p,q) for i = 0..5"""
+    out = None
+    for k in range(5, -1, -1):
+        f = h / 60 - k; p = v * (1 - s); q = v * (1 - s * f); tt = v * (1 - s * (1 - f))
+        tri = [(v, tt, p), (q, v, p), (p, v, tt), (p, q, v), (tt, p, v), (v, p, q)][k]
+        out = tri if out is None else tuple(z3.If(h < 60 * (k + 1), a_, b_) for a_, b_ in zip(tri, out))
+    return out
+def rgb2hue_textbook(c):
+    """hue in degrees of a non-grey colour: 60*((g-b)/d mod 6) if max = r, 60*((b-r)/d + 2) if max = g, 60*((r-g)/d + 4) if max = b"""
+    r, g, b = c; mx = rmax3(c); d = mx - rmin3(c)
+    h6 = z3.If(mx == r, (g - b) / d, z3.If(mx == g, 2 + (b - r) / d, 4 + (r - g) / d))
+    return 60 * z3.If(h6 < 0, h6 + 6, h6)
+def _to_ints(t, acc, seen):
+    if t.get_id() in seen: return
+    seen.add(t.get_id())
+    if z3.is_app(t):
+        if t.decl().kind() == z3.Z3_OP_TO_INT: acc.append(t)
+        for ch in t.children(): _to_ints(ch, acc, seen)
+def check_by_sector(S, fname, spec, pre, sectors, *, name, bounds, timeout, mutant=None):
+    """check_fn for rounding-erased code that takes floor() of ONE real quantity q (here hue/60): the executed term contains to_int(q); for every integer k of `sectors`
+    the obligations are proved under k <= q < k+1 with to_int(q) replaced by k (exact), plus the covering obligation sectors[0] <= q < sectors[-1]+1.  Pure real arithmetic
+    remains, which z3 decides in milliseconds where the mixed integer/real term takes minutes."""
+    res = sym_call(U, fname, mode='real')
+    hyps = list(pre(res.ins)) + res.axioms
+    acc = []; seen = set()
+    for row in res.outs:
+        for v in row: _to_ints(v.r, acc, seen)
+    for kind, cond, d in res.obligations: _to_ints(cond, acc, seen)
+    def inner(t):          # to_int(to_real(to_int(q))) -> q
+        a = t.arg(0)
+        while z3.is_app(a) and a.decl().kind() == z3.Z3_OP_TO_REAL and z3.is_app(a.arg(0)) and a.arg(0).decl().kind() == z3.Z3_OP_TO_INT: a = a.arg(0).arg(0)
+        return a
+    q = inner(acc[0]) if acc else None
+    for t in acc:
+        if not z3.is_true(z3.simplify(inner(t) == q)) and not z3.eq(z3.simplify(inner(t) - q), z3.RealVal(0)):
+            S.rec(name=name, kind='encode', result='unsupported', status='not-encoded', note='more than one floor argument', mandatory=True, functions=[fname]); S.inconclusive.append(name + ' [more than one floor argument]'); return None
+    fnlist = ['w_%s -> %s' % (fname, U.fns[fname].body.strip()[:160])]; binfo = bounds + '; ll=' + U.ll_sha()
+    allvars = [x for row in res.ins for x in row]
+    S.prove(name + '.witness', z3.BoolVal(False), hyps, timeout=20, kind='witness', functions=fnlist, bounds=binfo, expect='sat', mandatory=False)
+    if q is None: sectors = [None]
+    else:
+        S.prove(name + '.sectors-cover', z3.And(q >= sectors[0], q < sectors[-1] + 1), hyps, timeout=timeout, kind='spec', functions=fnlist, bounds=binfo + '; floor argument within sectors %d..%d' % (sectors[0], sectors[-1]),
+                replay=S._replayer(res, None, pre, U, fname, 'real', name + '.sectors-cover', side_kind='domain'), vars_=allvars)
+    for k in sectors:
+        sub = [(t, z3.IntVal(k)) for t in acc] if k is not None else []
+        hk = hyps + ([q >= k, q < k + 1] if k is not None else [])
+        sb = (lambda x: z3.simplify(z3.substitute(x, *sub))) if sub else (lambda x: x)
+        outs = [[RV(v.n, sb(v.r)) for v in row] for row in res.outs]
+        tag = '%s.sector%d' % (name, k) if k is not None else name
+        groups = {}
+        for kind, cond, d in res.obligations: groups.setdefault((kind, d), []).append(sb(cond))
+        for (kind, d), conds in groups.items():
+            S.prove('%s.%s[%s]' % (tag, kind, d[:60]), z3.Not(z3.Or(*conds)) if len(conds) > 1 else z3.Not(conds[0]), hk, timeout=timeout, kind=kind, functions=fnlist, bounds=binfo,
+                    replay=S._replayer(res, None, pre, U, fname, 'real', tag, side_kind=kind), vars_=allvars)
+        for label, g in spec(res.ins, outs):
+            S.prove('%s.%s' % (tag, label), goal_term(g), hk, timeout=timeout, kind='spec', functions=fnlist, bounds=binfo, replay=S._replayer(res, (spec, label), pre, U, fname, 'real', '%s.%s' % (tag, label)), vars_=allvars)
+        if mutant is not None and not S.quick and k == sectors[len(sectors) // 2]:
+            for label, g in mutant(res.ins, outs):
+                S.prove('%s.twin.%s' % (tag, label), goal_term(g), hk, timeout=timeout, kind='mutant-twin', functions=fnlist, bounds=binfo, expect='sat', mandatory=False)
+    return res
+def job_hsv(t):
+    c, w = FT[t]; E = 23 if w == 32 else 52
+    eps = RQ(Fraction(1, 2 ** E)); tol = RQ(Fraction(1, 2 ** (E - 2))); k1 = RQ(Fraction(1, 2 ** (E - 8))); k2 = RQ(Fraction(1, 2 ** (E - 8)))
+    def run(S):
+        tm = S.cap(90, 300)
+        cube = lambda i: [z3.And(x >= 0, x <= 1) for x in i[0]]
+        nongrey = lambda i: cube(i) + [rmax3(i[0]) - rmin3(i[0]) > 0]
+        def hsv_spec(i, o):
+            h, s, v = R(o[0]); mx = rmax3(i[0]); mn = rmin3(i[0])
+            return [('value==max', REq(v, mx)), ('saturation*max==max-min', RGoal('eq', s * mx, mx - mn, guard=mx > eps)), ('saturation==0-for-black', RGoal('eq', s, z3.RealVal(0), guard=mx <= eps)),
+                    ('saturation>=0', RGoal('ge', s, z3.RealVal(0))), ('saturation<=1', RGoal('le', s, z3.RealVal(1))), ('hue>=0', RGoal('ge', h, z3.RealVal(0))), ('hue<360', RGoal('lt', h, z3.RealVal(360)))]
+        S.check_fn(U, 'hsv_' + t, hsv_spec, nongrey, mode='real', timeout=tm, bounds='all non-grey colours of the cube [0,1]^3 (rounding-erased)',
+                   mutant=lambda i, o: [('m', RGoal('lt', R(o[0])[0], z3.RealVal(300)))])
+        # the textbook hue wherever the code's epsilon comparisons agree with exact comparisons (components equal to the maximum or more than epsilon below it)
+        def sep(i):
+            mx = rmax3(i[0]); return nongrey(i) + [mx > eps] + [z3.Or(x == mx, mx - x > eps) for x in i[0][:2]]
+        S.check_fn(U, 'hsv_' + t, lambda i, o: [('hue==textbook', REq(R(o[0])[0], rgb2hue_textbook(i[0])))], sep, mode='real', timeout=tm, name='c19.hsv_%s.hue' % t, side=False,
+                   bounds='non-grey colours of the cube whose r and g are equal to the maximum or more than epsilon below it, max > epsilon',
+                   mutant=lambda i, o: [('m', REq(R(o[0])[0], 60 * (i[0][1] - i[0][2]) / (rmax3(i[0]) - rmin3(i[0]))))])
+        # rgbColor against the textbook formula
+        hsvdom = lambda i: [i[0][0] >= 0, i[0][0] < 360, i[0][1] >= 0, i[0][1] <= 1, i[0][2] >= 0, i[0][2] <= 1]
+        def rgb_spec(i, o):
+            h, s, v = i[0]; r = R(o[0]); tb = hsv2rgb_textbook(h, s, v); g = []
+            for k in range(3):
+                g += [('textbook-formula[%d].le' % k, RGoal('le', r[k] - tb[k], tol)), ('textbook-formula[%d].ge' % k, RGoal('le', tb[k] - r[k], tol)),
+                      ('in-cube[%d].lo' % k, RGoal('ge', r[k], z3.RealVal(0))), ('in-cube[%d].hi' % k, RGoal('le', r[k], z3.RealVal(1)))]
+            g += [('max==value', REq(rmax3(r), v)), ('min==value*(1-saturation)', RGoal('eq', rmin3(r), v * (1 - s), guard=s > eps))]
+            return g
+        check_by_sector(S, 'rgb_' + t, rgb_spec, hsvdom, range(0, 7), name='c19.rgb_' + t, timeout=tm, bounds='hue in [0,360), saturation and value in [0,1]; |component - textbook| <= 2^-%d (1/60 is a rounded constant)' % (E - 2),
+                        mutant=lambda i, o: [('m', RGoal('le', rabs(R(o[0])[0] - hsv2rgb_textbook(i[0][0], i[0][1], i[0][2])[1]), tol))])
+        # rgbColor(hsvColor(c)) == c on the cube
+        def rt_spec(i, o):
+            r = R(o[0]); g = []
+            for k in range(3): g += [('c[%d].le' % k, RGoal('le', r[k] - i[0][k], tol)), ('c[%d].ge' % k, RGoal('le', i[0][k] - r[k], tol))]
+            return g
+        check_by_sector(S, 'hsv_rt_' + t, rt_spec, nongrey, range(0, 7), name='c19.hsv_rt_' + t, timeout=tm, bounds='all non-grey colours of the cube; |rgbColor(hsvColor(c)) - c| <= 2^-%d per component' % (E - 2),
+                        mutant=lambda i, o: [('m', RGoal('le', rabs(R(o[0])[0] - i[0][1]), tol))])
+        # hsvColor(rgbColor(hsv)) == hsv: value and saturation exactly, hue on the circle up to the rounded 1/60 and the epsilon comparisons (ill-conditioned for small chroma s*v)
+        def rt2_spec(i, o):
+            h, s, v = i[0]; h2, s2, v2 = R(o[0]); d = rabs(h2 - h); bound = k1 * s * v + k2
+            return [('value', REq(v2, v)), ('saturation', REq(s2, s)), ('hue>=0', RGoal('ge', h2, z3.RealVal(0))), ('hue<360', RGoal('lt', h2, z3.RealVal(360))),
+                    ('hue-on-circle', z3.Or(d * s * v <= bound, (360 - d) * s * v <= bound))]
+        check_by_sector(S, 'rgb_rt_' + t, rt2_spec, lambda i: [i[0][0] >= 0, i[0][0] < 360, i[0][1] > eps, i[0][1] <= 1, i[0][2] > eps, i[0][2] <= 1], range(0, 7), name='c19.rgb_rt_' + t, timeout=tm,
+                        bounds='hue in [0,360), saturation and value in (epsilon,1]; circular hue distance * s * v <= 2^-%d * (s * v + 1)' % (E - 8),
+                        mutant=lambda i, o: [('m', RGoal('le', rabs(R(o[0])[0] - i[0][0]) * i[0][1] * i[0][2], k2))])
+    return run
+def _hue360(res, k):
+    h = res.outs[0][0]; return z3.fpEQ(h.fp, z3.FPVal(360.0, h.fp.sort()))
+REGIONS = {'hue_is_360': _hue360}
+def job_hsv_fp_hue(t):
+    """bit-precise sweep of the whole cube: 0 <= hue < 360 for every non-grey colour except where the known finding applies (hue == 360)"""
+    c, w = FT[t]
+    def run(S):
+        tm = S.cap(400, 1500); K = lambda v: FPV(v, w)
+        incube = lambda i: [z3.And(z3.fpGEQ(fpof(x), K(0.0)), z3.fpLEQ(fpof(x), K(1.0))) for x in i[0]]
+        nongrey = lambda i: incube(i) + [z3.Not(z3.And(z3.fpEQ(fpof(i[0][0]), fpof(i[0][1])), z3.fpEQ(fpof(i[0][1]), fpof(i[0][2]))))]
+        S.check_fn(U, 'hsv_' + t, lambda i, o: [('hue<360', z3.fpLT(o[0][0].fp, K(360.0)))], nongrey, timeout=tm, solver='cvc5', name='c19.hsv_%s.fp' % t, known=['KF-C19-hsv-hue-360'], mandatory=(w == 32),
+                   bounds='bit-precise: all non-grey %s colours of the cube' % c)
+        S.check_fn(U, 'hsv_' + t, lambda i, o: [('hue>=0', z3.fpGEQ(o[0][0].fp, K(0.0)))], nongrey, timeout=tm, solver='cvc5', name='c19.hsv_%s.fp-lo' % t, side=False, witness=False, mandatory=(w == 32),
+                   bounds='bit-precise: all non-grey %s colours of the cube' % c)
+    return run
+def job_hsv_fp(t):
+    c, w = FT[t]
+    def run(S):
+        tm = S.cap(400, 1500); K = lambda v: FPV(v, w)
+        incube = lambda i: [z3.And(z3.fpGEQ(fpof(x), K(0.0)), z3.fpLEQ(fpof(x), K(1.0))) for x in i[0]]
+        nongrey = lambda i: incube(i) + [z3.Not(z3.And(z3.fpEQ(fpof(i[0][0]), fpof(i[0][1])), z3.fpEQ(fpof(i[0][1]), fpof(i[0][2]))))]
+        hue_lt = lambda i, o: [('hue<360', z3.fpLT(o[0][0].fp, K(360.0)))]
+        # the recorded witness of KF-C19-hsv-hue-360 (rounding-erased the hue is < 360 for every non-grey colour: job hsv_*); the bit-precise sweep of the whole cube needs minutes -> thorough tier
+        wit = [[z3.BitVecVal(float_to_bits(v, w), w) for v in (1.0, 0.0, 1e-9 if w == 32 else 1e-18)]]
+        S.check_fn(U, 'hsv_' + t, hue_lt, nongrey, ins=wit, validate=0, witness=False, side=False, timeout=tm, name='c19.hsv_%s.fp-witness' % t, known=['KF-C19-hsv-hue-360'], bounds='bit-precise: the colour (1, 0, %s)' % ('1e-9' if w == 32 else '1e-18'))
+        S.check_fn(U, 'hsv_' + t, lambda i, o: [('saturation>=0', z3.fpGEQ(o[0][1].fp, K(0.0))), ('saturation<=1', z3.fpLEQ(o[0][1].fp, K(1.0))), ('value>=components', z3.And(*[z3.fpGEQ(o[0][2].fp, fpof(x)) for x in i[0]]))], incube, timeout=tm,
+                   name='c19.hsv_%s.fp-sv' % t, side=False, bounds='bit-precise: all %s colours of the cube' % c)
+        # grey levels survive the round trip bit for bit (their hue is 0/0 = NaN in between, which rgbColor never looks at)
+        if w == 32 or not S.quick:
+            y = z3.BitVec('a0', w)
+            S.check_fn(U, 'hsv_rt_' + t, lambda i, o: [('grey[%d]' % k, o[0][k].bits == i[0][0]) for k in range(3)] + [('saturation==0', z3.fpIsZero(o[1][1].fp)), ('value', o[1][2].bits == i[0][0])],
+                       lambda i: [z3.fpGEQ(fpof(i[0][0]), K(0.0)), z3.fpLEQ(fpof(i[0][0]), K(1.0))], ins=[[y, y, y]], validate=0, timeout=tm, name='c19.hsv_rt_%s.grey' % t, bounds='bit-precise: every grey level y in [0,1]', side=False)
+    return run
+
+# ------------------------------------------------------------------ sRGB transfer curves (rounding-erased; pow is an uninterpreted function constrained by true facts only)
+def SC(w):
+    """the transfer-curve constants as the exact rational values of the decimal literals of IEC 61966-2-1 rounded to float / double"""
+    d = dict(thr=fconst('0.0031308', w), c1292=fconst('12.92', w), c1055=fconst('1.055', w), c055=fconst('0.055', w), g=fconst('0.41666', w),
+             k947=fconst('0.94786729857819905213270142180095', w), k077=fconst('0.07739938080495356037151702786378', w), t2=fconst('0.04045', w), G=fconst('2.4', w))
+    d['K'] = d['c1055'] * d['k947']; d['B0'] = (d['t2'] + d['c055']) * d['k947']
+    return d
+def ivpow(b, e):
+    """rigorous enclosure [lo, hi] (exact rationals) of b**e for rationals b > 0, e (mpmath interval arithmetic, 60 digits)"""
+    from mpmath import iv
+    old = iv.dps; iv.dps = 60
+    try:
+        r = (iv.mpf(str(b.numerator)) / iv.mpf(str(b.denominator))) ** (iv.mpf(str(e.numerator)) / iv.mpf(str(e.denominator)))
+        def fr(m):
+            sign, man, exp, bc = m; v = Fraction(int(man)) * (Fraction(2) ** int(exp)); return -v if sign else v
+        lo, hi = r._mpi_; return fr(lo), fr(hi)
+    finally: iv.dps = old
+def _contains(t, v):
+    seen = set(); st = [t]
+    while st:
+        x = st.pop()
+        if x.get_id() in seen: continue
+        seen.add(x.get_id())
+        if z3.eq(x, v): return True
+        st.extend(x.children())
+    return False
+class PowTheory:
+    """true facts about the real function pow(b, e), instantiated on the Ackermann variables of the executed code (res.ex.trig) and on specification-side applications"""
+    def __init__(s, res):
+        s.apps = [(v, a[0], a[1]) for key, (v, a) in getattr(res.ex, 'trig', {}).items() if key[0] == 'pow']; s.n = 0; s.extra = []
+    def fresh(s, nm):
+        s.n += 1; return z3.Real('%s!spec%d' % (nm, s.n))
+    def axioms(s, anchors=(), comp=None):
+        ax = []
+        for v, b, e in s.apps:
+            ax += [z3.Implies(z3.And(b >= 0, e > 0), v >= 0), z3.Implies(b > 0, v > 0), z3.Implies(z3.And(b == 0, e > 0), v == 0), z3.Implies(b == 1, v == 1),
+                   z3.Implies(z3.And(b >= 0, b <= 1, e > 0), v <= 1), z3.Implies(z3.And(b >= 1, e > 0), v >= 1), z3.Implies(e == 1, v == b),
+                   z3.Implies(z3.And(b > 0, b <= 1, e >= 1, e <= 3), z3.And(b * b * b <= v, v <= b)), z3.Implies(z3.And(b >= 1, e >= 1, e <= 3), z3.And(b <= v, v <= b * b * b))]
+            for b0, e0, lo, hi in anchors:        # b0 < 1:  x >= b0, 0 < e <= e0  ->  x^e >= b0^e >= b0^e0 >= lo ;   0 <= x <= b0, e >= e0  ->  x^e <= b0^e <= b0^e0 <= hi
+                ax += [z3.Implies(z3.And(b >= RQ(b0), e > 0, e <= RQ(e0)), v >= RQ(lo)), z3.Implies(z3.And(b >= 0, b <= RQ(b0), e >= RQ(e0)), v <= RQ(hi))]
+        for x in range(len(s.apps)):
+            for y in range(x + 1, len(s.apps)):
+                (v1, b1, e1), (v2, b2, e2) = s.apps[x], s.apps[y]
+                ax.append(z3.Implies(z3.And(e1 == e2, e1 > 0, b1 >= 0, b2 >= 0), z3.And(z3.Implies(b1 < b2, v1 < v2), z3.Implies(b2 < b1, v2 < v1), z3.Implies(b1 == b2, v1 == v2))))
+        if comp is not None:
+            # pow(pow(x,e1)*K, e2) = x^(e1*e2) * K^e2 for x, K > 0;  x^E = x if E = 1;  x <= x^E <= x*C for b0 <= x <= 1, E0 <= E <= 1 (C >= b0^(E0-1));  K^e between K and K^3 for 1 <= e <= 3
+            K, b0, E0, C = comp
+            for (v1, b1, e1) in s.apps:
+                for (v2, b2, e2) in s.apps:
+                    if v1 is v2 or not _contains(b2, v1): continue
+                    px = s.fresh('powx'); E = e1 * e2
+                    ax += [z3.Implies(E == 1, px == b1), z3.Implies(z3.And(b1 >= RQ(b0), b1 <= 1, E >= RQ(E0), E <= 1), z3.And(px >= b1, px <= b1 * RQ(C))),
+                           z3.Implies(z3.And(b2 == v1, b1 > 0), v2 == px)]
+                    if K != 1:
+                        pk = s.fresh('powk'); lo, hi = min(K, K ** 3), max(K, K ** 3)
+                        ax += [z3.Implies(z3.And(e2 >= 1, e2 <= 3), z3.And(pk >= RQ(lo), pk <= RQ(hi))), z3.Implies(z3.And(b2 == v1 * RQ(K), b1 > 0), v2 == px * pk)]
+        return ax
+def _num(t):
+    t = z3.simplify(t)
+    return float(z3val_to_fraction(t)) if (z3.is_rational_value(t) or z3.is_algebraic_value(t)) else None
+def _pow_of_comp(res, k):
+    """the executed pow application whose base mentions input component k only"""
+    xs = res.ins[0]
+    for key, (v, a) in getattr(res.ex, 'trig', {}).items():
+        if key[0] == 'pow' and _contains(a[0], xs[k]) and not any(_contains(a[0], xs[j]) for j in range(len(xs)) if j != k): return v, a[0], a[1]
+    return None
+def srgb_job(kind, t, L, gam, qual=''):
+    """kind: 'l2s' (convertLinearToSRGB) | 's2l' (convertSRGBToLinear); gam: False = standard overload, True = explicit Gamma overload"""
+    c, w = FT[t]; E = 23 if w == 32 else 52; k = SC(w)
+    fname = '%s%s%s_v%d_%s' % (kind, 'g' if gam else '', qual, L, t); nm = 'c19.' + fname
+    tolc = Fraction(1, 2 ** (E - 1))
+    thr, c1292, c1055, c055, k947, k077, t2 = [RQ(k[x]) for x in ('thr', 'c1292', 'c1055', 'c055', 'k947', 'k077', 't2')]
+    D1292, D1055, D055 = RQ(Fraction('12.92')), RQ(Fraction('1.055')), RQ(Fraction('0.055'))
+    G_lo, G_hi = 1, 3
+    # anchor points: rigorous enclosures of pow at the junction for the exponents at which the claims change
+    anchors = []
+    if kind == 'l2s':
+        for e0 in ([k['g']] if not gam else [Fraction(1000, 1953), Fraction(10000, 24001)]):
+            lo, hi = ivpow(k['thr'], e0); anchors.append((k['thr'], e0, lo, hi))
+    else:
+        for e0 in ([k['G']] if not gam else [Fraction(12, 5)]):
+            lo, hi = ivpow(k['B0'], e0); anchors.append((k['B0'], e0, lo, hi))
+    def expo(i): return (1 / i[1][0] if kind == 'l2s' else i[1][0]) if gam else RQ(k['g'] if kind == 'l2s' else k['G'])
+    def pre(i): return [z3.And(x >= 0, x <= 1) for x in i[0]] + ([i[1][0] >= G_lo, i[1][0] <= G_hi] if gam else [])
+    st = {}
+    def hyps(res):
+        st['res'] = res; return PowTheory(res).axioms(anchors)
+    def piece_lin(x): return x < thr if kind == 'l2s' else x <= t2
+    def piece_pow(x): return x > thr if kind == 'l2s' else x > t2        # at x == 0.0031308 the standard selects the linear piece, glm the power piece (junction discontinuity: outside)
+    def doc_value(x, gv):
+        """numeric value of the documented curve (used only to judge native replays of counterexamples)"""
+        import math
+        if kind == 'l2s':
+            x = min(max(x, 0.0), 1.0); return 12.92 * x if x < 0.0031308 else 1.055 * math.pow(x, (1.0 / gv) if gam else 0.41666) - 0.055
+        return x / 12.92 if x <= 0.04045 else math.pow((x + 0.055) / 1.055, gv if gam else 2.4)
+    def formula(i, o):
+        out = R(o[0]); g = []; conc = all(_num(x) is not None for row in i for x in row)
+        for j in range(min(L, 3)):
+            x = i[0][j]
+            if conc:
+                gv = _num(i[1][0]) if gam else None; dvf = doc_value(_num(x), gv); dv = z3.RealVal(repr(dvf))
+                ratio = REq(out[j] / dv, z3.RealVal(1)) if dvf != 0 else REq(out[j], dv)        # relative comparison: the replay judge's tolerance is absolute below 1
+                g += [('linear-piece[%d]' % j, ratio), ('power-piece[%d]' % j, ratio), ('pow-base[%d]' % j, z3.BoolVal(True)), ('pow-exponent[%d]' % j, z3.BoolVal(True))]; continue
+            ent = _pow_of_comp(st['res'], j)
+            if ent is None:
+                g.append(('power-piece[%d]' % j, z3.BoolVal(False))); continue
+            v, b, e = ent
+            if kind == 'l2s':
+                g += [('linear-piece[%d]' % j, RGoal('eq', out[j], c1292 * x, guard=piece_lin(x))), ('power-piece[%d]' % j, RGoal('eq', out[j], c1055 * v - c055, guard=piece_pow(x))),
+                      ('pow-base[%d]' % j, b == x), ('pow-exponent[%d]' % j, e == expo(i))]
+            else:
+                g += [('linear-piece[%d]' % j, RGoal('le', rabs(out[j] * D1292 - x), RQ(tolc) * x, guard=piece_lin(x))), ('power-piece[%d]' % j, RGoal('eq', out[j], v, guard=piece_pow(x))),
+                      ('pow-base[%d]' % j, rabs(b * D1055 - (x + D055)) <= RQ(tolc)), ('pow-exponent[%d]' % j, e == expo(i))]
+        if L == 4: g.append(('alpha', REq(out[3], i[0][3])))
+        return g
+    def rng(i, o):
+        out = R(o[0]); g = []
+        for j in range(min(L, 3)): g += [('range-lo%d' % j, RGoal('ge', out[j], z3.RealVal(0))), ('range-hi%d' % j, RGoal('le', out[j], 1 + RQ(tolc)))]
+        return g
+    def mono(i, o):
+        out = R(o[0]); x0, x1 = i[0][0], i[0][1]
+        return [('monotone-linear-piece', RGoal('le', out[0], out[1], guard=z3.And(x0 <= x1, piece_lin(x1)))), ('monotone-power-piece', RGoal('le', out[0], out[1], guard=z3.And(x0 <= x1, z3.Not(piece_lin(x0))))),
+                ('monotone-across-junction', RGoal('le', out[0], out[1], guard=z3.And(piece_lin(x0), z3.Not(piece_lin(x1)))))]
+    def fix(i, o):
+        out = R(o[0]); return [('0->0', REq(out[0], z3.RealVal(0)))] + ([('1->1', RGoal('le', rabs(out[1] - 1), RQ(tolc)))] if L >= 2 else [])
+    def run(S):
+        tm = S.cap(90, 300); gtxt = '; Gamma in [1,3]' if gam else ''
+        kf_neg = ['KF-C19-l2s-gamma-negative'] if (gam and kind == 'l2s') else []
+        kf_jmp = ['KF-C19-srgb-gamma-junction'] if gam else []
+        S.check_fn(U, fname, formula, pre, mode='real', timeout=tm, extra_hyps=hyps, bounds='components in [0,1]%s; documented piecewise curve with the decimal constants rounded to %s, pow as an uninterpreted function' % (gtxt, c),
+                   mutant=lambda i, o: [('m', RGoal('eq', R(o[0])[0], (c1292 if kind == 'l2s' else k077) * i[0][0], guard=(i[0][0] <= thr) if kind == 'l2s' else (i[0][0] < t2 + 1)))])
+        S.check_fn(U, fname, rng, pre, mode='real', timeout=tm, extra_hyps=hyps, side=False, witness=False, known=kf_neg, name=nm + '.range', bounds='components in [0,1]%s; result in [0, 1+2^-%d]' % (gtxt, E - 1),
+                   mutant=lambda i, o: [('m', RGoal('le', R(o[0])[0], z3.Q(1, 2)))])
+        if L >= 2:
+            S.check_fn(U, fname, mono, pre, mode='real', timeout=tm, extra_hyps=hyps, side=False, witness=False, known=kf_jmp, name=nm + '.monotone', bounds='components 0 and 1 of one call compared; inputs in [0,1]' + gtxt,
+                       mutant=lambda i, o: [('m', RGoal('lt', R(o[0])[0], R(o[0])[1], guard=i[0][0] <= i[0][1]))])
+        xs = [z3.RealVal(0), z3.RealVal(1)] + [z3.Real('a%d' % j) for j in range(2, L)]
+        S.check_fn(U, fname, fix, (lambda i: pre(i)), mode='real', timeout=tm, extra_hyps=hyps, side=False, witness=False, ins=[xs[:L]] + ([[z3.Real('b0')]] if gam else []), name=nm + '.fixpoints',
+                   bounds='0 -> 0 exactly, 1 -> 1 within 2^-%d%s' % (E - 1, gtxt))
+        if gam:      # recorded witnesses of the custom-gamma findings (concrete inputs, replayed natively)
+            G = lambda v: [[z3.RealVal(v)]]
+            pad = [z3.RealVal(0)] * (L - 2)
+            if kind == 'l2s':
+                S.check_fn(U, fname, lambda i, o: [('range-lo0', RGoal('ge', R(o[0])[0], z3.RealVal(0)))], None, mode='real', timeout=tm, extra_hyps=hyps, side=False, witness=False, known=kf_neg, name=nm + '.range-witness',
+                           ins=[[z3.RealVal('0.004'), z3.RealVal(0)][:L] + pad] + G(1), bounds='recorded witness: x = 0.004, Gamma = 1')
+                if L >= 2: S.check_fn(U, fname, lambda i, o: [('monotone-across-junction', RGoal('le', R(o[0])[0], R(o[0])[1]))], None, mode='real', timeout=tm, extra_hyps=hyps, side=False, witness=False, known=kf_jmp, name=nm + '.monotone-witness',
+                                      ins=[[z3.RealVal('0.0031'), z3.RealVal('0.0032')] + pad] + G('2.2'), bounds='recorded witness: 0.0031 < 0.0032, Gamma = 2.2')
+            elif L >= 2:
+                S.check_fn(U, fname, lambda i, o: [('monotone-across-junction', RGoal('le', R(o[0])[0], R(o[0])[1]))], None, mode='real', timeout=tm, extra_hyps=hyps, side=False, witness=False, known=kf_jmp, name=nm + '.monotone-witness',
+                           ins=[[z3.RealVal('0.0404'), z3.RealVal('0.0405')] + pad] + G(3), bounds='recorded witness: 0.0404 < 0.0405, Gamma = 3')
+    return run
+def _gamma_junction(res, k):
+    g = res.ins[1][0]
+    return g * 10000 < 24001 if res.fn.name.startswith('l2sg') else g * 10 > 24
+REGIONS['gamma_junction'] = _gamma_junction
+
+def comp_job(direction, t, L, gam):
+    """direction 'sl': convertSRGBToLinear(convertLinearToSRGB(x)); 'ls': convertLinearToSRGB(convertSRGBToLinear(y)); each piece against the matching piece of the other function"""
+    c, w = FT[t]; E = 23 if w == 32 else 52; k = SC(w)
+    fname = '%s%s_v%d_%s' % (direction, 'g' if gam else '', L, t)
+    thr, t2 = RQ(k['thr']), RQ(k['t2']); tolc = Fraction(1, 2 ** (E - 1)); K = k['K']
+    E0 = Fraction(1) if gam else k['g'] * k['G']
+    b0 = k['thr'] if direction == 'sl' else k['B0']
+    C = Fraction(1) if gam else ivpow(b0, E0 - 1)[1]
+    if direction == 'sl':
+        tolp = max(C * max(1, K, K ** 3) - 1, 1 - min(1, K, K ** 3)) * Fraction(101, 100)
+        comp = (K, b0, E0, C)
+    else:
+        tolp = (1 + k['c055']) * max(abs(K - 1), abs(K * C - 1)) * Fraction(101, 100) + Fraction(1, 2 ** (E + 4))
+        comp = (Fraction(1), b0, E0, C)
+    top = 1 if direction == 'sl' else 1 - Fraction(1, 2 ** 30)
+    def pre(i): return [z3.And(x >= 0, x <= RQ(top)) for x in i[0]] + ([i[1][0] >= 1, i[1][0] <= 3] if gam else [])
+    def hyps(res): return PowTheory(res).axioms((), comp)
+    def spec(i, o):
+        out = R(o[0]); mid = R(o[1]); g = []
+        for j in range(3):
+            x = i[0][j]; d = rabs(out[j] - x); sc = x
+            if (_num(x) or 0) > 0: d = d / x; sc = z3.RealVal(1)           # concrete replay: judge the relative error (the replay judge's tolerance is absolute below 1)
+            if direction == 'sl':
+                g += [('linear-inverse[%d]' % j, RGoal('le', d, RQ(tolc) * sc, guard=z3.And(x < thr, mid[j] <= t2))), ('power-inverse[%d]' % j, RGoal('le', d, RQ(tolp) * sc, guard=z3.And(x > thr, mid[j] > t2)))]
+            else:
+                g += [('linear-inverse[%d]' % j, RGoal('le', d, RQ(tolc) * sc, guard=z3.And(x <= t2, mid[j] < thr))), ('power-inverse[%d]' % j, RGoal('le', rabs(out[j] - x), RQ(tolp), guard=z3.And(x > t2, mid[j] >= thr)))]
+        if L == 4: g.append(('alpha', REq(out[3], i[0][3])))
+        return g
+    def mutant(i, o):
+        out = R(o[0]); mid = R(o[1]); x = i[0][0]
+        gd = z3.And(x > thr, mid[0] > t2) if direction == 'sl' else z3.And(x > t2, mid[0] >= thr)
+        return [('m', RGoal('le', rabs(out[0] - x), RQ(tolp / 1024) * (x if direction == 'sl' else 1), guard=gd))]
+    def run(S):
+        what = 'convertSRGBToLinear(convertLinearToSRGB(x))' if direction == 'sl' else 'convertLinearToSRGB(convertSRGBToLinear(y))'
+        S.check_fn(U, fname, spec, pre, mode='real', timeout=S.cap(90, 300), extra_hyps=hyps, mutant=mutant,
+                   bounds='%s, components in [0,%s]%s; linear piece: relative error <= 2^-%d; power piece (both calls on their power pieces): %s error <= %.3g' % (what, '1' if direction == 'sl' else '1-2^-30', '; Gamma in [1,3]' if gam else '', E - 1,
+                                                                                                                                                 'relative' if direction == 'sl' else 'absolute', float(tolp)))
+    return run
+def job_lowp(S):
+    """the lowp float vec3 specialisation of convertLinearToSRGB (sqrt-based approximation)"""
+    fname = 'l2s_lowp_v3_f32'; tm = S.cap(120, 400)
+    cube = lambda i: [z3.And(x >= 0, x <= 1) for x in i[0]]
+    tol = RQ(Fraction(1, 2 ** 22))
+    def rng(i, o):
+        out = R(o[0]); g = []
+        for j in range(3): g += [('range-lo%d' % j, RGoal('ge', out[j], z3.RealVal(0))), ('range-hi%d' % j, RGoal('le', out[j], 1 + tol))]
+        return g
+    S.check_fn(U, fname, rng, cube, mode='real', timeout=tm, known=['KF-C19-lowp-srgb-negative'], name='c19.' + fname + '.range', bounds='components in [0,1]; rounding-erased, sqrt exact')
+    S.check_fn(U, fname, lambda i, o: [('monotone', RGoal('le', R(o[0])[0], R(o[0])[1], guard=i[0][0] <= i[0][1]))], cube, mode='real', timeout=tm, side=False, witness=False, known=['KF-C19-lowp-srgb-decreasing'],
+               name='c19.' + fname + '.monotone', bounds='components 0 and 1 of one call compared; inputs in [0,1]', mutant=lambda i, o: [('m', RGoal('lt', R(o[0])[0], R(o[0])[1], guard=i[0][0] <= i[0][1]))])
+    S.check_fn(U, fname, lambda i, o: [('0->0', REq(R(o[0])[0], z3.RealVal(0))), ('1->1', RGoal('le', rabs(R(o[0])[1] - 1), tol))], None, mode='real', timeout=tm, side=False, witness=False,
+               ins=[[z3.RealVal(0), z3.RealVal(1), z3.Real('a2')]], name='c19.' + fname + '.fixpoints', bounds='0 -> 0 exactly, 1 -> 1 within 2^-22')
+    # recorded witnesses
+    S.check_fn(U, fname, lambda i, o: [('range-lo0', RGoal('ge', R(o[0])[0], z3.RealVal(0)))], None, mode='real', timeout=tm, side=False, witness=False, known=['KF-C19-lowp-srgb-negative'],
+               ins=[[z3.RealVal('0.0001'), z3.RealVal(0), z3.RealVal(0)]], name='c19.' + fname + '.range-witness', bounds='recorded witness: x = 0.0001')
+def job_alpha_fp(t):
+    c, w = FT[t]
+    def run(S):
+        for f in ('l2s', 'l2sg', 's2l', 's2lg'):
+            S.check_fn(U, '%s_v4_%s' % (f, t), lambda i, o: [('alpha-bits-untouched', o[0][3].bits == i[0][3])], None, mode='fp', timeout=S.cap(60, 200), name='c19.%s_v4_%s.fp' % (f, t),
+                       bounds='bit-precise: all 2^%d bit patterns of every component and of Gamma (NaN payloads included)' % w, mutant=lambda i, o: [('m', o[0][3].bits == i[0][2])])
+    return run
+
+def job_hsv_direct(t):
+    """cross-check of check_by_sector (thorough tier, optional): the composed wrapper with its floor() left as to_int, decided by z3's mixed integer/real arithmetic (minutes, erratic)"""
+    c, w = FT[t]; E = 23 if w == 32 else 52; tol = RQ(Fraction(1, 2 ** (E - 2)))
+    def run(S):
+        def rt_spec(i, o):
+            r = R(o[0]); g = []
+            for k in range(3): g += [('c[%d].le' % k, RGoal('le', r[k] - i[0][k], tol)), ('c[%d].ge' % k, RGoal('le', i[0][k] - r[k], tol))]
+            return g
+        S.check_fn(U, 'hsv_rt_' + t, rt_spec, lambda i: [z3.And(x >= 0, x <= 1) for x in i[0]] + [rmax3(i[0]) - rmin3(i[0]) > 0], mode='real', timeout=600, mandatory=False, name='c19.hsv_rt_%s.direct' % t,
+                   bounds='all non-grey colours of the cube; floor() not eliminated')
+    return run
+def seq(*fs):
+    def run(S):
+        for f in fs: f(S)
+    return run
+JOB_CAP = {'quick': 900, 'thorough': 3600}
 def jobs(tier):
     q = tier == 'quick'; J = []
     for t in ITY: J.append(('ycocgr_' + t, job_ycocgr_int(t)))
-    for t in FT: J += [('ycocg_' + t, job_ycocg_float(t)), ('saturation_' + t, job_saturation(t))]
+    for t in FT:
+        J += [('ycocg_' + t, job_ycocg_float(t)), ('saturation_' + t, job_saturation(t)), ('hsv_' + t, job_hsv(t)), ('hsv_fp_' + t, job_hsv_fp(t)), ('srgb_alpha_fp_' + t, job_alpha_fp(t))]
+        for L in (1, 2, 3, 4):
+            J.append(('srgb_v%d_%s' % (L, t), seq(*[srgb_job(kind, t, L, gam) for kind in ('l2s', 's2l') for gam in (False, True)])))
+        for L in (3, 4):
+            J.append(('srgb_roundtrip_v%d_%s' % (L, t), seq(*[comp_job(d, t, L, gam) for d in ('sl', 'ls') for gam in (False, True)])))
+        # mediump / lowp instantiate the same generic code, except convertLinearToSRGB(vec<3,float,lowp>) (job srgb_lowp)
+        J.append(('srgb_qualifiers_' + t, seq(*[srgb_job(kind, t, 3, gam, qual) for qual in ('_mediump', '_lowp') for kind in ('l2s', 's2l') for gam in (False, True) if (qual, kind, gam, t) != ('_lowp', 'l2s', False, 'f32')])))
+        if not q: J.append(('hsv_direct_' + t, job_hsv_direct(t)))
+        if t == 'f32' or not q: J.append(('hsv_fp_hue_' + t, job_hsv_fp_hue(t)))
+    J.append(('srgb_lowp', job_lowp))
     return J
